@@ -33,6 +33,8 @@ def decode(data: bytes) -> dict:
             case["events"].append({"e": "connect", "c": c, "handshake": not d.p(0.15), "split": d.p(0.3)})
         elif r < 6:
             case["events"].append({"e": "cmd", "c": c, "k": d.i(0, len(CMDS) - 1)})
+        elif r < 7 and d.p(0.3):
+            case["events"].append({"e": "handshake", "c": c})       # the handshake of a client that connected earlier without one
         elif r < 7:
             if d.p(0.5):
                 case["events"].append({"e": "pipeline", "c": c, "k": d.i(0, len(CMDS) - 1), "k2": d.i(0, len(CMDS) - 1)})
@@ -44,6 +46,7 @@ def decode(data: bytes) -> dict:
     case["cli"] = d.p(0.04)
     case["restart"] = d.p(0.3)
     case["dual"] = d.p(0.2)
+    case["restart_early"] = d.p(0.15)
     return case
 
 
@@ -244,6 +247,7 @@ class C19Engine(Engine):
                         continue
                     c.shaken = False
                     c.blocked = False
+                    c.hs_sent = bool(ev.get("handshake", True))
                     if ev.get("handshake", True):
                         hs = json.dumps({"terminal_width": 80}).encode() + b"\n"
                         if ev.get("split"):
@@ -280,6 +284,26 @@ class C19Engine(Engine):
                     await ask(c, ev["k"])
                     if stopped:
                         c.shaken = False       # that session may legitimately have ended after this line
+                elif ev["e"] == "handshake":
+                    if c.w is None or c.shaken or stopped or getattr(c, "blocked", False) or getattr(c, "hs_sent", False):
+                        continue
+                    c.hs_sent = True  # type: ignore[attr-defined]
+                    labels.add("late-handshake")
+                    try:
+                        c.w.write(json.dumps({"terminal_width": 80}).encode() + b"\n")
+                        await c.w.drain()
+                        name = await asyncio.wait_for(c.r.readline(), BOUND)
+                    except asyncio.TimeoutError:
+                        if await idle_witness():
+                            fail("handshake/no-reply-within-bound", "late handshake")
+                        continue
+                    except (ConnectionError, OSError):
+                        name = b""
+                    if name == full + b"\n":
+                        c.shaken = True
+                        await ask(c, 0)
+                    else:
+                        fail("handshake/wrong-reply", f"late handshake: {name!r}")
                 elif ev["e"] == "block":
                     if c.w is None or not c.shaken or stopped or getattr(c, "blocked", False):
                         continue
@@ -383,6 +407,20 @@ class C19Engine(Engine):
                     fail("dual/second-unix-socket-file-left-behind", other["path"])
             if not stopped:
                 await do_stop()
+            early: Dict[str, Any] = {}
+            if case.get("restart_early") and any(c.w is not None for c in clients) and not state.get("left_while_blocked") \
+                    and not any(getattr(c, "blocked", False) for c in clients):
+                # started again while clients of the stopped incarnation are still connected
+                labels.add("restart-while-old-clients-connected")
+                if case["transport"] == "unix":
+                    for _ in range(100):      # the old socket file is unlinked by the old task only once its clients are gone
+                        break
+                try:
+                    if case["transport"] == "tcp":
+                        early["task"] = await asyncio.wait_for(server.serve_forever(), BOUND)
+                        port = server._server.sockets[0].getsockname()[1]
+                except Exception as e:
+                    fail("restart/serve_forever-failed", repr(e))
             # every client leaves
             for c in clients:
                 if c.w is not None and getattr(c, "blocked", False):
@@ -394,6 +432,38 @@ class C19Engine(Engine):
                     except Exception:
                         pass
                     c.r = c.w = None
+            if early.get("task") is not None:
+                # the old clients are gone now; the new incarnation must be unaffected by the old task finishing
+                try:
+                    await asyncio.wait_for(asyncio.shield(task), BOUND)
+                except (asyncio.TimeoutError, asyncio.CancelledError):
+                    pass
+                await asyncio.sleep(0.01)
+                if not server.is_serving() or early["task"].done():
+                    fail("restart/new-incarnation-stopped-by-the-old-one", f"is_serving={server.is_serving()} task done={early['task'].done()}")
+                else:
+                    try:
+                        r, w = await open_conn()
+                        w.write(json.dumps({"terminal_width": 80}).encode() + b"\n")
+                        await w.drain()
+                        name = await asyncio.wait_for(r.readline(), BOUND)
+                        w.write(b"num-running\n")
+                        await w.drain()
+                        rep = await asyncio.wait_for(r.readline(), BOUND)
+                        if (name, rep) != (full + b"\n", b"0\n"):
+                            fail("restart/new-incarnation-does-not-serve", f"{name!r} {rep!r}")
+                        w.close()
+                    except asyncio.TimeoutError:
+                        if await idle_witness():
+                            fail("restart/new-incarnation-does-not-serve", "no reply")
+                    except (ConnectionError, OSError) as e:
+                        fail("restart/new-incarnation-does-not-serve", repr(e))
+                early["task"].cancel()
+                try:
+                    await asyncio.wait_for(asyncio.shield(early["task"]), BOUND)
+                except (asyncio.TimeoutError, asyncio.CancelledError):
+                    pass
+                return
             try:
                 await asyncio.wait_for(asyncio.shield(task), 1.0 if state.get("left_while_blocked") else BOUND)
             except asyncio.TimeoutError:
